@@ -676,7 +676,7 @@ Proof.
                              response_data r = Some JNull /\ response_errors r <> []).
   { intros errs Hne Hr. destruct (response_parts doc _ _ _ Hr) as (js & Ejs & Ee & Ed).
     split; [exact Ed|]. rewrite Ee. intro Hj. subst js.
-    apply map_outcome_length in Ejs. destruct errs; [congruence|discriminate]. }
+    apply map_outcome_length in Ejs. rewrite Hj in Ejs. destruct errs; [congruence|simpl in Ejs; discriminate]. }
   destruct (st_opselect st) as [m|].
   - cbn [obind]. intros Hr _. apply (Hgo [EExecution m]); [discriminate|exact Hr].
   - destruct (st_varcoercion st) as [|c cs].
